@@ -210,7 +210,14 @@ def run_sd(cfg, tier):
                     why.append(f"csd arguments: x rows {lx.tolist()} y rows {ly.tolist()} (expected all-channels (n,1,N) first, references (1,m,N) second)")
                 # O3 parameters
                 if method == "per":
-                    bad += [differs(kw["fs"], lift(1) / dt), differs(kw["noverlap"], pov * nxseg)]
+                    bad += [differs(kw["fs"], lift(1) / dt)]
+                    # scipy truncates noverlap with int(): what is judged is the number of overlapping samples
+                    no = kw["noverlap"]
+                    want = z3.ToInt((pov * nxseg).z)
+                    if isinstance(no, (int, np.integer)):
+                        bad.append(want != int(no))
+                    else:
+                        bad.append(z3.Or(lift(no).nan, z3.ToInt(lift(no).z) != want))
                     if kw["nperseg"] != nxseg or kw["window"] != "hann" or kw["nfft"] is not None:
                         why.append(f"'per' csd parameters {dict((k, v) for k, v in kw.items() if k in ('nperseg', 'window', 'nfft'))}")
                 else:
@@ -242,7 +249,8 @@ def run_sd(cfg, tier):
                     bad.append(differs(freq[nl - 1], fs / 2))
                 bad.append(differs(freq[0], 0))
         neg = z3.BoolVal(True) if why else z3.Or(*bad)
-        tally.decide(e, neg, on_sat=lambda m, why=tuple(why): cex(cfg, why), label=f"{method} nxseg={nxseg} {n_all}x{n_ref}")
+        tally.decide(e, neg, on_sat=lambda m, why=tuple(why), e=e: cex(cfg, why, {"pov": _mfloat(e, m, pov), "dt": _mfloat(e, m, dt)}),
+                     label=f"{method} nxseg={nxseg} {n_all}x{n_ref}")
     return tally.result(ex)
 
 
@@ -254,9 +262,19 @@ def _same_tol(a, b):
     return a == b
 
 
-def cex(cfg, why):
-    viol, detail, key = replay_sd(cfg, {})
-    return {"inputs": {}, "reproduced": viol, "detail": ("; ".join(why) + " | " if why else "") + detail, "key": key}
+def _mfloat(e, m, x):
+    try:
+        return float(concretize(m, x))
+    except Exception:  # noqa: BLE001
+        return None
+
+
+def cex(cfg, why, inputs=None):
+    inputs = {k: v for k, v in (inputs or {}).items() if v is not None}
+    viol, detail, key = replay_sd(cfg, inputs)
+    if not viol and inputs:
+        viol, detail, key = replay_sd(cfg, {})
+    return {"inputs": inputs, "reproduced": viol, "detail": ("; ".join(why) + " | " if why else "") + detail, "key": key}
 
 
 def replay_sd(cfg, inputs):
@@ -267,7 +285,7 @@ def replay_sd(cfg, inputs):
     rng = np.random.RandomState(11)
     N = 40 * nxseg
     Yall, Yref = rng.randn(n_all, N), rng.randn(n_ref, N)
-    dt, pov = 0.0125, 0.5
+    dt, pov = float(inputs.get("dt", 0.0125)), float(inputs.get("pov", 0.5))
     try:
         freq, Sy = fdd.SD_est(Yall, Yref, dt, nxseg, method=method, pov=pov)
     except Exception as e:  # noqa: BLE001
@@ -287,7 +305,8 @@ def replay_sd(cfg, inputs):
                 R = R * signal.windows.exponential(len(R), center=0, tau=-len(R) / np.log(0.01), sym=False)
                 ref = np.fft.rfft(R)
             if not np.allclose(Sy[i, j], ref, rtol=1e-9, atol=1e-14):
-                return True, f"Sy[{i},{j}] differs from the documented {method} estimate of (channel {i}, reference {j})", f"SD_est:{method}:pairing"
+                return True, (f"Sy[{i},{j}] differs from the documented {method} estimate of (channel {i}, reference {j}) "
+                              f"(nxseg={nxseg}, pov={pov}, dt={dt})"), f"SD_est:{method}:pairing"
     return False, "wiring as specified", None
 
 
